@@ -381,24 +381,75 @@ fn worker(ctx: &WorkerCtx) -> Result<(), Fail> {
             }
         }
         st.class("all 65536 two-byte strings");
-        // four- and five-byte move strings over the relevant alphabet
-        let al = ALPHA_FULL;
-        let n = al.len();
-        for i in 0..n {
-            if !ctx.mine(i as u64) {
+        // ALL 2^32 four-byte strings (tight loop against table-driven expectations; the slow,
+        // explanatory path runs only on a mismatch)
+        {
+            let mut file_t = [-1i8; 256];
+            let mut rank_t = [-1i8; 256];
+            for x in 0..256usize {
+                file_t[x] = file_of_byte(x as u8).map_or(-1, |v| v as i8);
+                rank_t[x] = rank_of_byte(x as u8).map_or(-1, |v| v as i8);
+            }
+            for a in 0..256usize {
+                if !ctx.mine(a as u64) {
+                    continue;
+                }
+                let bad = guarded(|| -> Option<[u8; 4]> {
+                    for b in 0..256usize {
+                        let src = if file_t[a] >= 0 && rank_t[b] >= 0 { (rank_t[b] * 8 + file_t[a]) as i16 } else { -1 };
+                        for c in 0..256usize {
+                            for d in 0..256usize {
+                                let s = [a as u8, b as u8, c as u8, d as u8];
+                                let want: i32 = if src >= 0 && file_t[c] >= 0 && rank_t[d] >= 0 { (src as i32) << 8 | (rank_t[d] as i32 * 8 + file_t[c] as i32) } else { -1 };
+                                let got: i32 = match ChessMove::from_ascii_bytes(&s) {
+                                    Some(m) if m.piece.is_none() => (m.source as i32) << 8 | m.dest as i32,
+                                    Some(_) => -2,
+                                    None => -1,
+                                };
+                                if got != want {
+                                    return Some(s);
+                                }
+                            }
+                        }
+                    }
+                    None
+                })
+                .map_err(|d| f(json!({"c19": "move4-block", "first": a}), format!("C19 panic while parsing four-byte strings starting with byte {a:#04x}: {d}")))?;
+                if let Some(s4) = bad {
+                    let d = move_bytes(&s4).err().unwrap_or_else(|| "C19 four-byte string disagrees with the intended language".into());
+                    return Err(f(json!({"c19": "move", "bytes": s4.to_vec()}), d));
+                }
+                st.eval(1 << 24);
+            }
+            st.class("ALL 2^32 four-byte strings (this worker's share)");
+        }
+        // five-byte strings: (a) all strings over the move alphabet, (b) every position swept over
+        // all 256 byte values while the other four range over a representative set
+        let rep: &[u8] = b"aHh1 8-`i09\x11\x80G";
+        for p in 0..5usize {
+            if !ctx.mine(p as u64 + 7) {
                 continue;
             }
-            for j in 0..n {
-                for k in 0..n {
-                    for l in 0..n {
-                        let s = [al[i], al[j], al[k], al[l]];
-                        guarded(|| move_bytes(&s)).unwrap_or_else(Err).map_err(|d| f(json!({"c19": "move", "bytes": s.to_vec()}), d))?;
-                        st.eval(1);
+            let r = rep.len();
+            for x in 0..256usize {
+                for i in 0..r * r * r * r {
+                    let o = [rep[i % r], rep[i / r % r], rep[i / (r * r) % r], rep[i / (r * r * r) % r]];
+                    let mut s5 = [0u8; 5];
+                    let mut k = 0;
+                    for q in 0..5 {
+                        if q == p {
+                            s5[q] = x as u8;
+                        } else {
+                            s5[q] = o[k];
+                            k += 1;
+                        }
                     }
+                    guarded(|| move_bytes(&s5)).unwrap_or_else(Err).map_err(|d| f(json!({"c19": "move", "bytes": s5.to_vec()}), d))?;
+                    st.eval(1);
                 }
             }
+            st.class("five-byte strings: one position over all 256 bytes x representative others");
         }
-        st.class_n("all four-byte strings over the move alphabet", (n * n * n * n) as u64 / ctx.n);
         let al5: &[u8] = if ctx.tier == Tier::Thorough { ALPHA_FULL } else { ALPHA_SMALL };
         let n5 = al5.len();
         for i in 0..n5 {
@@ -495,6 +546,17 @@ fn replay(v: &Value) -> Result<(), String> {
             }
         }
         Some("move") => move_bytes(&bytes()),
+        Some("move4-block") => {
+            let a = v["first"].as_u64().unwrap_or(0) as u8;
+            for b in 0..=255u8 {
+                for c in 0..=255u8 {
+                    for d in 0..=255u8 {
+                        move_bytes(&[a, b, c, d])?;
+                    }
+                }
+            }
+            Ok(())
+        }
         Some("enum_iter") => enum_iters(v["which"].as_u64().unwrap_or(0) as u8, v["max_len"].as_u64().unwrap_or(3) as usize).map(|_| ()),
         Some("any") => {
             let s = bytes();
@@ -519,7 +581,7 @@ pub const C19: CheckDef = CheckDef {
     id: "C19",
     worker,
     replay,
-    rule: "exhaustive: 64 squares / 8 files / 8 ranks (index <-> value <-> (file,rank) <-> neighbour steps <-> flip by arithmetic; Display then parse), all 256 one-byte and all 65536 two-byte strings against an independent predicate for File/Rank/Piece/PromotionPiece/Pos parsers, all four-byte and five-byte strings over the move alphabet for ChessMove (37 symbols; five-byte: 18 symbols quick / 37 thorough), all 4096 moves x case combinations x both separators, all op lists of length <= 3-4 over {next, next_back, nth(n), nth_back(n)} on the five enum iterators against slice iterators, Pos::all()/File::iter()/Rank::iter(); plus proptest byte strings of other lengths and arbitrary UTF-8. Non-trivial = every enumerated string/op list; distinct by bytes.",
+    rule: "exhaustive: 64 squares / 8 files / 8 ranks (index <-> value <-> (file,rank) <-> neighbour steps <-> flip by arithmetic; Display then parse), all 256 one-byte and all 65536 two-byte strings against an independent predicate for File/Rank/Piece/PromotionPiece/Pos parsers, ALL 2^32 four-byte strings and, for five-byte strings, all strings over the move alphabet (18 symbols quick / 37 thorough) plus every position swept over all 256 byte values against 14 representative bytes elsewhere, for ChessMove, all 4096 moves x case combinations x both separators, all op lists of length <= 3-4 over {next, next_back, nth(n), nth_back(n)} on the five enum iterators against slice iterators, Pos::all()/File::iter()/Rank::iter(); plus proptest byte strings of other lengths and arbitrary UTF-8. Non-trivial = every enumerated string/op list; distinct by bytes.",
     assumptions: &["intended spellings as stated in the property: files a-h either case, ranks 1-8, piece letters either case, moves e2e4 or e2-e4"],
     exhaustive: |_| true,
     uses_reference: false,
